@@ -70,6 +70,10 @@ def has_abort(tree) -> bool:
     return "abort" in json.dumps(tree) or "catch" in json.dumps(tree)
 
 
+def has_gcm(tree) -> bool:
+    return '"gcm"' in json.dumps(tree)
+
+
 def exhaustive_small() -> List[Any]:
     """All trees: top-level call with one hook holding [inner-call, observe], inner over all options."""
     out = []
@@ -114,6 +118,12 @@ class Probe:
         class Mgr:  # a context manager whose elaborate_context hook performs `acts`
             def __init__(self, acts):
                 self.acts = acts
+
+            def __enter__(self):
+                return self
+
+            def __exit__(self, *a):
+                return False
 
         class ProbeItem:  # unwraps to a suspended generator that is inside a `with`
             pass
@@ -230,6 +240,34 @@ class Probe:
             else:
                 # the nested hooks' events were logged during the call; 'full' precedes them
                 self.log.insert(mark, "full")
+        elif tag == "gcm":
+            # a nested extraction of a frame holding a generator-based manager whose generator body holds a manager with a
+            # hook: everything beneath the @contextmanager is reached through the library's own contextlib glue
+            acts = a[1]
+            Mgr = self.Mgr
+
+            @contextlib_cm
+            def g():
+                with Mgr(acts):
+                    yield
+
+            def holder():
+                with g():
+                    yield
+
+            hg = holder()
+            next(hg)
+            mark = len(self.log)
+            try:
+                try:
+                    ss.extract_child(hg, for_task=False)
+                except RuntimeError as e:
+                    if "extract_child() may only be called" in str(e):
+                        self.log.append("refused")
+                    raise
+                self.log.insert(mark, "full")
+            finally:
+                hg.close()
         elif tag == "fill":
             ctx = ss.Context(obj=self.Mgr(a[1]), is_async=False)
             ss.fill_context(ctx)
@@ -310,6 +348,10 @@ class C13(PropCheck):
                                                                 ["child", True, [["observe"]]]]]]})
         for _ in range(n // 3):
             out.append({"k": "tree", "tree": ["extract", rng.choice(B), rng.choice(B), [[gen_call_abort(rng, rng.randint(1, 3)), "observe"]]]})
+        # beneath a generator-based manager the options are still the enclosing extraction's
+        for a, b in itertools.product(B, B):
+            out.append({"k": "tree", "tree": ["extract", a, b, [[["gcm", ["observe", ["child", True, [["observe"]]]]], "observe"]]]})
+            out.append({"k": "tree", "tree": ["extract", a, b, [[["gcm", [["fill", ["observe"]], ["gcm", ["observe"]]]]]]]})
         # threads
         nthr = 12 if tier == "quick" else 40
         for _ in range(nthr):
@@ -402,6 +444,8 @@ class C13(PropCheck):
     def model_line(self, case):
         d = {"p": "C13", "k": case["k"]}
         if case["k"] == "tree":
+            if has_gcm(case["tree"]):
+                return None      # the contextlib glue between the two extractions is not in the Lean model: reference interpreter only
             d["tree"] = case["tree"]
         else:
             d["trees"] = case["trees"]
@@ -474,6 +518,17 @@ class C13(PropCheck):
                 for h in a[2]:
                     try:
                         for x in h:
+                            call(x, c)
+                    except Raised:
+                        pass
+            elif tag == "gcm":
+                if c[1] is None:
+                    exp.append("refused")
+                    raise Raised()
+                exp.append("full")
+                if c[0]:          # contexts are only looked at when with_contexts is on
+                    try:
+                        for x in a[1]:
                             call(x, c)
                     except Raised:
                         pass
